@@ -182,6 +182,29 @@ def run_all_separations(ctx, gd, k):
              sample={"graph": gd, "k": k, "separations": len(want)})
 
 
+def two_separator_graph(rng):
+    """>= 9 nodes: a pair (A, B) with a LARGE separator early in the topological order (the common parents P*) and a
+    SMALL one late (the mediators Q*), plus bystanders - the retention policy has a real choice to make (with 3 parents,
+    2 mediators and the bystanders as further roots the small separator's positions add up to more than the big one's
+    plus the node count)."""
+    m, q = rng.choice([(3, 2), (3, 2), (3, 2), (4, 3), (2, 1), (4, 2)])
+    P_ = [f"P{i}" for i in range(m)]
+    Q_ = [f"Q{i + m + 2}" for i in range(q)]
+    di = [[p, "A"] for p in P_] + [[p, x] for p in P_ for x in Q_] + [[x, "B"] for x in Q_]
+    core = P_ + ["A"] + Q_ + ["B"]
+    by = [f"F{i}" for i in range(max(0, rng.randint(9, 10) - len(core)))]
+    bi = []
+    rooted = rng.random() < 0.7
+    for a, b in zip(by, by[1:]):
+        (bi if rooted or rng.random() < 0.5 else di).append([a, b])
+    if rng.random() < 0.7:
+        nodes = P_ + by + ["A"] + Q_ + ["B"]
+    else:
+        nodes = core + by
+        rng.shuffle(nodes)
+    return {"nodes": nodes, "di": di, "bi": bi, "hostile": "two-separators"}
+
+
 def run_shard(ctx):
     install()
     mon_dsep.install()
@@ -217,6 +240,10 @@ def run_shard(ctx):
     for i in range(ctx.share({"quick": 600, "thorough": 10000}[ctx.tier])):
         gd = gg.random_admg(rng, rng.choice([3, 4, 4, 5]))
         run_all_separations(ctx, gd, rng.choice([None, 0, 1, 2, 3]))
+    # 9-10 nodes, return_all on: the policy chooses among several separators of different sizes
+    for i in range(ctx.share({"quick": 48, "thorough": 800}[ctx.tier])):
+        gd = two_separator_graph(rng) if i % 3 else gg.random_admg(rng, 9, p_di=0.2, p_bi=0.1)
+        run_case(ctx, gd, rng.choice([None, 2, 3, 4]), rng.choice(["default", "default", "len_lex"]), True)
 
 
 def replay(case):
